@@ -183,7 +183,7 @@ def run(R, env):
             R.ob("C01.R3", "SubmitBatch:save-on-every-success-path", must_pass(h, op["root_bb"]), "a success exit is reachable without saving the state", loc=op["loc"], fn=hk)
         # expected_native_unstaked stored in the batch
         stored = []
-        for op in storage_ops_deep(prog, h, env.depth):
+        for op in storage_ops_deep(prog, h_nz, env.depth):
             if op["kind"] == "w" and ns_of(prog, op["args"][0]) == "batches":
                 for s in subterms(op["args"][-1]):
                     if s[0] == "upd" and s[2] == ("expected_native_unstaked",):
@@ -191,7 +191,7 @@ def run(R, env):
         R.floor("C01.R3", "expected_native_unstaked stored by SubmitBatch", len(stored), 1)
         for op, val in stored:
             v = val[3][0][2] if val[0] == "agg" and val[2] == "Some" else None
-            good = v is not None and len(subtracted) >= 1 and all(same(v, s_) for s_ in subtracted)
+            good = v is not None and len(subtracted) >= 1 and all(same(v, s_) or shared.same_any(prog, v, s_, 3, op.get("assumptions", ())) for s_ in subtracted)
             R.ob("C01.R3", "SubmitBatch:set-aside==subtracted", good, "expected_native_unstaked := %s but total_native_token -= %s" % (fmt(val)[:140], [fmt(s_)[:140] for s_ in subtracted]), loc=op["loc"], fn=hk)
             R.ob("C01.R3", "SubmitBatch:batch-save-on-every-success-path", must_pass(h, op["root_bb"]), "a success exit is reachable without saving the submitted batch", loc=op["loc"], fn=hk)
     else:
